@@ -9,4 +9,5 @@ type (
 	WaitGroup = vr.WaitGroup
 	Once      = vr.Once
 	Map       = vr.Map
+	Pool      = vr.Pool
 )
